@@ -231,3 +231,48 @@ CONTRACTS += [
         ensures={'construction_order': 'prep_order'}, searchable=False,
     ),
 ]
+
+
+# ------------------------------------------------------------------------------------------------
+# TestChain.__init__ (C19): what the caller supplies is what the helper chain is built from - each argument in its own slot
+# ------------------------------------------------------------------------------------------------
+def tc_init_post(self, tasks, mock_tasks, parameters, base_dir, trace):
+    """the given classes and mocks are kept as given; the helper's config is built once, from the supplied parameters (not from
+    the mocks, not empty), named `test`, under the supplied directory; the chain is then constructed once, from that config"""
+    return all_of(self._tasks == tasks, self._mock_tasks == mock_tasks,
+                  trace.count('Config.__init__') == 1, trace.count('Chain.__init__') == 1,
+                  trace.index('Config.__init__') < trace.index('Chain.__init__'),
+                  trace.arg('Config.__init__', 0) == self.config, trace.arg('Config.__init__', 1) == base_dir,
+                  trace.arg('Config.__init__', 2) is None, trace.arg('Config.__init__', 4) is None,       # no file, no context
+                  trace.arg('Config.__init__', 5) == 'test', trace.arg('Config.__init__', 6) is None,     # named `test`, no namespace
+                  trace.arg('Config.__init__', 7) == parameters,                                          # data = the supplied parameters
+                  trace.arg('Chain.__init__', 0) == self, trace.arg('Chain.__init__', 1) == self.config)
+
+
+def tc_init_none_post(self, tasks, base_dir, trace):
+    """no mocks and no parameters given: an empty mock table and an empty parameter set - not None, not shared defaults"""
+    return all_of(self._tasks == tasks, self._mock_tasks is not None and len(self._mock_tasks) == 0,
+                  trace.arg('Config.__init__', 7) is not None and len(trace.arg('Config.__init__', 7)) == 0,
+                  trace.arg('Config.__init__', 5) == 'test', trace.arg('Config.__init__', 1) == base_dir,
+                  trace.arg('Chain.__init__', 1) == self.config, trace.arg('Config.__init__', 0) == self.config)
+
+
+CONTRACTS += [
+    Contract(
+        id='C19.testchain.init', target='taskchain.utils.testing:TestChain.__init__', props={'C19': 'decisive'},
+        inputs={'self': Obj('taskchain.utils.testing:TestChain'), 'tasks': SymList(TClsU, 'given_classes'),
+                'mock_tasks': SymDict(Str, Dyn, 'mocks'),       # same kind as the parameters on purpose: handing the mocks to Config is then refutable
+                'parameters': SymDict(Str, Dyn, 'parameters'), 'base_dir': S(PathK, 'base_dir')},
+        callees={'taskchain.config:Config.__init__': ByContract(event='Config.__init__', pure=False),
+                 'taskchain.chain:Chain.__init__': ByContract(event='Chain.__init__', pure=False)},
+        ensures={'slots': 'tc_init_post'}, l0=['A-dict'], searchable=False,
+    ),
+    Contract(
+        id='C19.testchain.init.defaults', target='taskchain.utils.testing:TestChain.__init__', props={'C19': 'decisive'},
+        inputs={'self': Obj('taskchain.utils.testing:TestChain'), 'tasks': SymList(TClsU, 'given_classes'), 'mock_tasks': Const(None),
+                'parameters': Const(None), 'base_dir': S(PathK, 'base_dir')},
+        callees={'taskchain.config:Config.__init__': ByContract(event='Config.__init__', pure=False),
+                 'taskchain.chain:Chain.__init__': ByContract(event='Chain.__init__', pure=False)},
+        ensures={'empty_not_none': 'tc_init_none_post'}, l0=['A-dict'], searchable=False,
+    ),
+]
